@@ -213,10 +213,257 @@ fn notifications(logdir: &str, st: &mut Stats) -> serde_json::Value {
     json!({"notification_sequences": plans.len(), "notifications": total, "emitted": emitted_total, "judged": emitted_expected_checks})
 }
 
+// ---- monitor layer: the functions that turn an observation into the REPORTED status and into notifications
+// (report_proxy_agent_aggregate_status / extension_substatus / report_proxy_agent_service_status), driven with the
+// aggregate status file in its production location. Needs a private /var/log (run inside the sandbox).
+#[derive(Clone, Copy, PartialEq, Debug)]
+enum Ev {
+    PollOk,       // status file readable, version matches            -> successful observation
+    PollMissing,  // status file absent                                -> failed observation
+    PollCorrupt,  // status file unparsable                            -> failed observation
+    PollMismatch, // status file readable, other version               -> failed observation
+    UpdOk,        // install command ran and succeeded                 -> reported as a failed observation (agent restarting)
+    UpdFail,      // install command ran and exited non-zero           -> failed observation
+    UpdSpawn,     // install command could not be launched             -> failed observation
+}
+const EVS: [Ev; 7] = [Ev::PollOk, Ev::PollMissing, Ev::PollCorrupt, Ev::PollMismatch, Ev::UpdOk, Ev::UpdFail, Ev::UpdSpawn];
+
+fn status_doc(version: &str) -> String {
+    let detail = json!({"status": "RUNNING", "message": "ok"});
+    json!({
+        "timestamp": "2024-01-01T00:00:00Z",
+        "proxyAgentStatus": {"version": version, "status": "SUCCESS", "monitorStatus": detail, "keyLatchStatus": detail, "ebpfProgramStatus": detail,
+            "proxyListenerStatus": detail, "telemetryLoggerStatus": detail, "proxyConnectionsCount": 1},
+        "proxyConnectionSummary": [{"userName": "c20user", "ip": "168.63.129.16", "port": 80, "processCmdLine": "c20 cmd", "responseStatus": "200 OK", "count": 1}],
+        "failedAuthenticateSummary": []
+    })
+    .to_string()
+}
+
+fn monitor_layer(logdir: &str, st: &mut Stats) -> serde_json::Value {
+    let status_path = std::path::Path::new(proxy_agent_shared::proxy_agent_aggregate_status::PROXY_AGENT_AGGREGATE_STATUS_FOLDER)
+        .join(proxy_agent_shared::proxy_agent_aggregate_status::PROXY_AGENT_AGGREGATE_STATUS_FILE_NAME);
+    std::fs::create_dir_all(status_path.parent().unwrap()).expect("private /var/log expected");
+    // drain the bounded event queue the way the extension does (real event logger, short interval)
+    let evdir = std::path::Path::new(logdir).join("events");
+    {
+        let evdir = evdir.clone();
+        std::thread::spawn(move || {
+            let rt = tokio::runtime::Builder::new_current_thread().enable_all().build().unwrap();
+            rt.block_on(proxy_agent_shared::telemetry::event_logger::start(evdir, std::time::Duration::from_millis(2), 5, |_s: String| async {}));
+        });
+    }
+    let log_path = std::path::Path::new(logdir).join("c20.log");
+    let status_folder = std::path::Path::new(logdir).join("status");
+    std::fs::create_dir_all(&status_folder).unwrap();
+    const VERSION: &str = "9.9.9-c20";
+    // plans: every sequence of length <= 4; failure runs around the threshold with mixed failure kinds; long identical runs
+    let mut plans: Vec<Vec<Ev>> = Vec::new();
+    let mut stack: Vec<Vec<Ev>> = vec![vec![]];
+    while let Some(p) = stack.pop() {
+        if !p.is_empty() {
+            plans.push(p.clone());
+        }
+        if p.len() < 4 {
+            for e in EVS {
+                let mut q = p.clone();
+                q.push(e);
+                stack.push(q);
+            }
+        }
+    }
+    let exhaustive = plans.len();
+    let fails = [Ev::PollMissing, Ev::PollCorrupt, Ev::PollMismatch, Ev::UpdOk, Ev::UpdFail, Ev::UpdSpawn];
+    let mut x: u64 = 0x9E3779B97F4A7C15;
+    let mut rnd = move |n: usize| {
+        x ^= x << 13;
+        x ^= x >> 7;
+        x ^= x << 17;
+        (x % n as u64) as usize
+    };
+    for n in 17usize..=23 {
+        for variant in 0..12 {
+            let mut p = vec![Ev::PollOk; variant % 3];
+            for _ in 0..n {
+                p.push(if variant < 6 { fails[variant] } else { fails[rnd(6)] });
+            }
+            p.push(if variant % 2 == 0 { Ev::PollOk } else { fails[rnd(6)] });
+            p.push(Ev::PollOk);
+            p.push(fails[rnd(6)]);
+            plans.push(p);
+        }
+    }
+    for run in [2usize, 10, 119, 120, 121, 122, 241, 300] {
+        for e in [Ev::PollOk, Ev::PollMismatch, Ev::PollMissing] {
+            let mut p = vec![e; run];
+            p.push(Ev::PollOk);
+            p.push(Ev::PollMismatch);
+            p.push(Ev::PollMismatch);
+            plans.push(p);
+        }
+        // alternation of two readable states: the read subject never changes, the version subject changes every poll
+        let p: Vec<Ev> = (0..run).map(|i| if i % 2 == 0 { Ev::PollOk } else { Ev::PollMismatch }).collect();
+        plans.push(p);
+    }
+    let mut offset: u64 = std::fs::metadata(&log_path).map(|m| m.len()).unwrap_or(0);
+    let read_new = |offset: &mut u64| -> String {
+        use std::io::{Read, Seek, SeekFrom};
+        let len = std::fs::metadata(&log_path).map(|m| m.len()).unwrap_or(0);
+        if len < *offset {
+            *offset = 0; // the log rolled
+        }
+        let mut out = String::new();
+        if let Ok(mut f) = std::fs::File::open(&log_path) {
+            let _ = f.seek(SeekFrom::Start(*offset));
+            let mut buf = Vec::new();
+            let _ = f.read_to_end(&mut buf);
+            *offset += buf.len() as u64;
+            out = String::from_utf8_lossy(&buf).to_string();
+        }
+        out
+    };
+    let mut events_total = 0u64;
+    let mut reached_error = 0u64;
+    let mut notif_judged = 0u64;
+    let mut notif_emitted = 0u64;
+    let mut push_failures = 0u64;
+    for (pi, plan) in plans.iter().enumerate() {
+        let mut m = extlib::service_main::verif_monitor_new(VERSION);
+        let seq_no = format!("{}", pi);
+        let mut fail_run = 0u64;
+        let mut prev_ok_obs = false;
+        let mut prev_reported_error = false;
+        let mut saw_error = false;
+        // notification subjects: 0 = "the status file can be read", 1 = "its version matches"
+        let mut last_value: [Option<bool>; 2] = [None, None];
+        let mut since_emit: [u64; 2] = [0, 0];
+        for (pos, ev) in plan.iter().enumerate() {
+            events_total += 1;
+            let reported = match ev {
+                Ev::PollOk | Ev::PollMismatch | Ev::PollMissing | Ev::PollCorrupt => {
+                    match ev {
+                        Ev::PollOk => std::fs::write(&status_path, status_doc(VERSION)).unwrap(),
+                        Ev::PollMismatch => std::fs::write(&status_path, status_doc("1.0.0-other")).unwrap(),
+                        Ev::PollCorrupt => std::fs::write(&status_path, "{\"timestamp\": ").unwrap(),
+                        _ => {
+                            let _ = std::fs::remove_file(&status_path);
+                        }
+                    }
+                    extlib::service_main::verif_monitor_poll(&mut m, status_folder.clone(), &seq_no)
+                }
+                Ev::UpdOk => extlib::service_main::verif_monitor_update_report(&mut m, std::process::Command::new("true").output(), status_folder.clone(), &seq_no),
+                Ev::UpdFail => extlib::service_main::verif_monitor_update_report(&mut m, std::process::Command::new("false").output(), status_folder.clone(), &seq_no),
+                Ev::UpdSpawn => extlib::service_main::verif_monitor_update_report(&mut m, std::process::Command::new("/nonexistent/proxy_agent_setup").output(), status_folder.clone(), &seq_no),
+            };
+            // what the platform reads: the status file written for this sequence number
+            let on_disk = std::fs::read_to_string(status_folder.join(format!("{}.status", seq_no)))
+                .ok()
+                .and_then(|t| serde_json::from_str::<serde_json::Value>(&t).ok())
+                .and_then(|v| v[0]["status"]["status"].as_str().map(|x| x.to_string()))
+                .unwrap_or_default();
+            let ok_obs = *ev == Ev::PollOk;
+            if ok_obs {
+                fail_run = 0;
+            } else {
+                fail_run += 1;
+            }
+            let mut bad: Option<String> = None;
+            if on_disk != reported {
+                bad = Some("monitor:status-file-differs-from-computed-status".to_string());
+            }
+            let is_err = on_disk == ERROR || reported == ERROR;
+            if is_err && fail_run < 20 {
+                bad = Some(if ok_obs { "monitor:error-reported-directly-after-a-success" } else { "monitor:error-reported-before-20-consecutive-failures" }.to_string());
+            }
+            if ok_obs && prev_reported_error && is_err {
+                bad = Some("monitor:one-success-did-not-leave-error".to_string());
+            }
+            if pos > 0 && ok_obs && prev_ok_obs && reported != SUCCESS {
+                bad = Some("monitor:two-consecutive-successes-did-not-yield-success".to_string());
+            }
+            // notifications emitted during this event, classified by subject through their text
+            let text = read_new(&mut offset);
+            push_failures += text.matches("Failed to push event").count() as u64;
+            let emitted = [
+                text.matches("Successfully read proxy agent aggregate status file").count() + text.matches("Error in reading proxy agent aggregate status file").count(),
+                text.matches("does not match proxy agent file version in extension").count() + text.matches("c20user").count(),
+            ];
+            let value: [Option<bool>; 2] = match ev {
+                Ev::PollOk => [Some(true), Some(true)],
+                Ev::PollMismatch => [Some(true), Some(false)],
+                Ev::PollMissing | Ev::PollCorrupt => [Some(false), None],
+                _ => [None, None],
+            };
+            for subj in 0..2 {
+                let Some(v) = value[subj] else {
+                    if emitted[subj] > 0 {
+                        bad = Some("monitor:notification-about-a-subject-that-was-not-observed".to_string());
+                    }
+                    continue;
+                };
+                notif_judged += 1;
+                notif_emitted += emitted[subj] as u64;
+                let changed = last_value[subj] != Some(v);
+                if emitted[subj] > 1 {
+                    bad = Some("monitor:identical-notification-emitted-more-than-once-per-120-repetitions".to_string());
+                }
+                if changed {
+                    if emitted[subj] == 0 {
+                        bad = Some("monitor:notification-not-emitted-on-change".to_string());
+                    }
+                    since_emit[subj] = 0;
+                } else {
+                    let c = since_emit[subj] + 1;
+                    if emitted[subj] > 0 && c < 120 {
+                        bad = Some("monitor:identical-notification-emitted-more-than-once-per-120-repetitions".to_string());
+                    }
+                    since_emit[subj] = if emitted[subj] > 0 { 0 } else { c };
+                }
+                last_value[subj] = Some(v);
+            }
+            if let Some(b) = bad {
+                if st.violations.len() < 20 {
+                    let tail: Vec<String> = plan[..=pos].iter().rev().take(30).rev().map(|e| format!("{:?}", e)).collect();
+                    st.violations.push(json!({"signature": b, "layer": "monitor", "plan": pi, "position": pos, "event": format!("{:?}", ev), "reported": reported, "status_file": on_disk,
+                        "consecutive_failed_observations": fail_run, "last_events": tail, "notifications_emitted_by_subject": emitted}));
+                }
+            }
+            if is_err {
+                saw_error = true;
+            }
+            prev_ok_obs = ok_obs;
+            prev_reported_error = is_err;
+        }
+        if saw_error {
+            reached_error += 1;
+        }
+        if saw_error || plan.len() >= 120 || (plan.len() >= 3 && plan.iter().any(|e| matches!(e, Ev::UpdSpawn | Ev::PollMismatch))) {
+            let mut h: u64 = 0xcbf29ce484222325 ^ 0x77;
+            for e in plan {
+                h ^= *e as u64 + 1;
+                h = h.wrapping_mul(0x100000001b3);
+            }
+            st.distinct_nontrivial.insert(h);
+        }
+    }
+    proxy_agent_shared::telemetry::event_logger::stop();
+    json!({"plans": plans.len(), "exhaustive_plans_up_to_length_4": exhaustive, "events": events_total, "plans_reaching_error": reached_error,
+        "notification_checks": notif_judged, "notifications_emitted": notif_emitted, "event_queue_push_failures": push_failures})
+}
+
 fn main() {
     let maxlen: usize = std::env::var("C20_MAXLEN").ok().and_then(|x| x.parse().ok()).unwrap_or(16);
     let out = std::env::var("C20_OUT").expect("C20_OUT");
     let logdir = std::env::var("C20_LOGDIR").expect("C20_LOGDIR");
+    if std::env::var("C20_MODE").as_deref() == Ok("monitor") {
+        // the logger is process-wide: initialise it as notifications() would
+        extlib::logger::init_logger(logdir.to_string(), "c20.log");
+        let mut st = Stats { sequences: 0, observations: 0, reached_error: 0, distinct_nontrivial: HashSet::new(), ref_disagreements: 0, violations: vec![], samples: vec![] };
+        let mon = monitor_layer(&logdir, &mut st);
+        let res = json!({"monitor": mon, "distinct_nontrivial": st.distinct_nontrivial.len(), "violations": st.violations});
+        std::fs::write(out, serde_json::to_string(&res).unwrap()).unwrap();
+        return;
+    }
     let mut st = Stats { sequences: 0, observations: 0, reached_error: 0, distinct_nontrivial: HashSet::new(), ref_disagreements: 0, violations: vec![], samples: vec![] };
     // 1. exhaustive: all 2^L sequences for L <= maxlen
     for len in 1..=maxlen {
